@@ -735,3 +735,30 @@ package transaction
 //@   inline-callee setOnePC
 //@   ensures fallback: batchCount > 1 && old(c.useOnePC) > 0 ==> (c.useOnePC == 0 || c.useOnePC == old(c.useOnePC))
 //@   ensures never: old(c.useOnePC) == 0 ==> c.useOnePC == 0
+
+// ---- C04/C09: grouping the (sorted) mutations by region: a partition into consecutive slices ---------------------------------
+// Assumed of every mutation list (trusted, like Len/GetKey above): Slice(from, to) is the sub-list [from, to) of the list it
+// is taken from (sliceOf/sliceFrom/sliceTo name its origin and bounds).
+//@ spec func sliceOf(m CommitterMutations) CommitterMutations
+//@ spec func sliceFrom(m CommitterMutations) int
+//@ spec func sliceTo(m CommitterMutations) int
+//@ func (CommitterMutations) Slice
+//@   trusted
+//@   modifies nothing
+//@   ensures sliceOf(result) == recv && sliceFrom(result) == from && sliceTo(result) == to
+// The groups are consecutive slices of the list given: a group is closed exactly in front of the first key its location does
+// not contain, as the slice from where the previous group ended up to that key (never empty), the next group starts at that
+// very key with the region LocateKey finds for it, and the last group runs to the end of the list - every mutation lands in
+// exactly one group. (Stated at the three places that build the partition; the quantified "chain" form over the result
+// slice was tried and not discharged in time.)
+//@ func groupSortedMutationsByRegion
+//@   prop C04 C09
+//@   bytes: key
+//@   may-panic
+//@   requires nonneg: mutLen(m) >= 0
+//@   loop 1 invariant idx: 0 <= i && i <= mutLen(m) && 0 <= lastUpperBound && (i == 0 ==> lastLoc == nil && lastUpperBound == 0 && len(groups) == 0) && (i > 0 ==> lastLoc != nil && lastUpperBound < i)
+//@   at call(Slice#2) assert closed: arg_from == lastUpperBound && arg_to == i && lastUpperBound < i && lastLoc != nil
+//@   at call(LocateKey) assert start: arg_key == mutKey(m, i) && lastUpperBound == i
+//@   at call(Slice#1) assert rest: arg_from == lastUpperBound && arg_to == mutLen(m) && lastUpperBound < mutLen(m)
+//@   ensures empty: result1 == nil && mutLen(m) == 0 ==> len(result0) == 0
+//@   ensures some: result1 == nil && mutLen(m) > 0 ==> len(result0) > 0
